@@ -165,11 +165,13 @@ def shown(pos, payload):
     return quote(payload) if pos == 'path' else payload
 
 
-def judge(apps, kind, pos, payload, as_json, baseline):
+def judge(apps, kind, pos, payload, as_json, baseline, core_alphabet=True):
     c = apps.request(kind, pos, payload, as_json)
     probs = wsgi.pep3333_problems(c)
     if probs:
         return 'wsgi', probs[0]
+    if c.code != expected_status(kind) and not core_alphabet:
+        return None     # a seed-extension character changed the routing of the request: not the error kind under test
     if c.code != expected_status(kind):
         return 'status', f'status {c.status}, expected {expected_status(kind)}'
     body = c.body.decode('utf8', 'replace')
@@ -199,7 +201,11 @@ def judge(apps, kind, pos, payload, as_json, baseline):
     if kind != 'critical':
         # the page shows repr(url): undo repr's backslash doubling for the containment test
         t = t.replace('\\\\', '\\')
-    if want not in t:
+    if '&' not in payload or not core_alphabet:
+        return None     # only an unescaped ampersand can make entity decoding change the text; characters with URL syntax
+        #                 (seed extensions: ; ? # / control characters) are re-arranged by urllib and not compared
+    strip = str.maketrans('', '', '\t\r\n')       # urllib drops these characters from URLs
+    if want.translate(strip) not in t.translate(strip):
         return 'text-altered', f'the page text does not contain the request data {want[:80]!r} as sent (entity decoding changed it?)'
     return None
 
@@ -239,7 +245,7 @@ def work(spec):
             res['states'] += 1
             res['transitions'] += 1
             try:
-                v = judge(apps, k, p, payload, as_json, base_cache[key])
+                v = judge(apps, k, p, payload, as_json, base_cache[key], core_alphabet=(kind != 'x'))
             except Exception as e:   # noqa
                 v = ('harness', f'{type(e).__name__}: {e}')
             if as_json and k != 'critical':
@@ -265,10 +271,11 @@ def replay(case):
     om = sut.load()
     apps = Apps(om)
     k, p = case['kind'], case['pos']
+    core_alphabet = all(ch in ALPHA for ch in case['payload']) or case['payload'] in PROBES
     b = apps.request(k, p, 'a', False)
     bb = b.body.decode('utf8', 'replace')
     baseline = tokens(bb) + (bb,)
-    v = judge(apps, k, p, case['payload'], case['json'], baseline)
+    v = judge(apps, k, p, case['payload'], case['json'], baseline, core_alphabet)
     if v is None:
         return None
     return (f'{k} error page, payload {case["payload"][:100]!r} injected into {p}, '
